@@ -327,6 +327,9 @@ func classifyCrash(log string) (kind, key, excerpt string) {
 			key = "unknown" // crash inside harness code
 		} else {
 			key = strings.TrimRight(m, "(")
+			if i := strings.Index(key, "(0x"); i > 0 { // drop argument values: they differ from run to run
+				key = key[:i]
+			}
 		}
 		break
 	}
